@@ -45,7 +45,7 @@ PROFILES: dict[str, dict] = {
     'C11': dict(w=dict(BASE, D=5, N=3, V=3, C=2, T=2), relevant='D', pool_edits=0.45),
     'C14': dict(w=dict(BASE, C=8, N=2, V=2, T=0.5, S=0.5), relevant='C', comment_dense=True),
     'C17': dict(w=dict(BASE, S=8, C=1.5, N=1.5, V=1.5, T=1, A=1.5), relevant='S', adjacency=True),
-    'C18': dict(w=dict(BASE, V=6, N=3, T=1, S=0.2), relevant='VN', focus_classes=['Transaction', 'Posting', 'MetaItem', 'Open', 'Balance'],
+    'C18': dict(w=dict(BASE, V=6, N=3, T=1, S=0.2, K=1.5), relevant='VN', focus_classes=['Transaction', 'Posting', 'MetaItem', 'Open', 'Balance'],
                 indent_play=True),
     'C19': dict(w=dict(BASE, F=4, N=3, V=3, C=1.5, D=1.5, K=1), relevant='F'),
     'C20': dict(w=dict(BASE, N=3, V=3, T=3, C=3, D=1, Z=1.0, S=1.5), relevant='NVTCSDZ', eq=True),
